@@ -90,6 +90,7 @@ def simulators():
         G[u][v]['w'] = 1.0 + (u + v) % 3
     for u in G:
         G.nodes[u]['r'] = 1.0 + u % 2
+    KD = nx.complete_graph(5)
     H = nx.DiGraph(); H.add_edge('I', 'R', rate=1.0)
     J = nx.DiGraph(); J.add_edge(('I', 'S'), ('I', 'I'), rate=1.5)
     IC = {u: ('I' if u in (0, 2) else 'S') for u in G}
@@ -107,12 +108,17 @@ def simulators():
         'fast_nonMarkov_SIR': ('SIR', tm, lambda fd: EoN.fast_nonMarkov_SIR(G, trans_time_fxn=tt, rec_time_fxn=rt, trans_time_args=(1.0,), rec_time_args=(1.0,), initial_infecteds=[1], initial_recovereds=[4], tmin=tm, tmax=tm + 4, return_full_data=fd)),
         'fast_nonMarkov_SIR(recovery exactly at tmax)': ('SIR', tm, lambda fd: EoN.fast_nonMarkov_SIR(G, trans_time_fxn=tt, rec_time_fxn=lambda u: 2.0, trans_time_args=(1.0,), initial_infecteds=[1, 3], tmin=tm, tmax=tm + 2.0, return_full_data=fd)),
         'fast_nonMarkov_SIR(fixed period, events at tmax)': ('SIR', 0, lambda fd: EoN.fast_nonMarkov_SIR(G, trans_time_fxn=lambda u, v: 1.0, rec_time_fxn=lambda u: 2.0, initial_infecteds=[0], tmin=0, tmax=3.0, return_full_data=fd)),
+        'fast_SIS(dense graph, high transmission rate)': ('SIS', 0, lambda fd: EoN.fast_SIS(KD, 3.0, 1.0, initial_infecteds=[0, 1], tmin=0, tmax=4, return_full_data=fd), KD),
+        'Gillespie_SIS(dense graph, high transmission rate)': ('SIS', 0, lambda fd: EoN.Gillespie_SIS(KD, 3.0, 1.0, initial_infecteds=[0, 1], tmin=0, tmax=4, return_full_data=fd), KD),
         'fast_SIS(negative tmin)': ('SIS', -6, lambda fd: EoN.fast_SIS(G, 1.0, 1.0, initial_infecteds=[0, 2], tmin=-6, tmax=-3, return_full_data=fd)),
         'Gillespie_SIR': ('SIR', tm, lambda fd: EoN.Gillespie_SIR(G, 1.0, 1.0, initial_infecteds=[0, 2], initial_recovereds=[5], tmin=tm, return_full_data=fd)),
         'Gillespie_SIR(recovered nodes next to the seeds)': ('SIR', tm, lambda fd: EoN.Gillespie_SIR(G, 2.0, 0.5, initial_infecteds=[0, 2], initial_recovereds=[1, 4], tmin=tm, return_full_data=fd)),
         'fast_SIR(recovered nodes next to the seeds)': ('SIR', tm, lambda fd: EoN.fast_SIR(G, 2.0, 0.5, initial_infecteds=[0, 2], initial_recovereds=[1, 4], tmin=tm, return_full_data=fd)),
         'discrete_SIR(horizon not a whole number of steps)': ('SIR', 2, lambda fd: EoN.discrete_SIR(G, test_transmission=lambda u, v: True, initial_infecteds=[0], tmin=2, tmax=4.5, return_full_data=fd)),
         'basic_discrete_SIS(p=1, horizon not a whole number of steps)': ('SIS', 1, lambda fd: EoN.basic_discrete_SIS(G, 1.0, initial_infecteds=[0, 4], tmin=1, tmax=3.5, return_full_data=fd)),
+        'discrete_SIR(recovery rule keeps nodes infectious for 3 steps)': ('SIR', 2, lambda fd: (lambda calls: EoN.discrete_SIR(
+            G, test_transmission=lambda u, v: (u + v) % 2 == 1, test_recovery=lambda u: calls.__setitem__(u, calls.get(u, 0) + 1) or calls[u] >= 3,
+            initial_infecteds=[0, 3], tmin=2, return_full_data=fd))({})),
         'discrete_SIR(recovered node next to the seed)': ('SIR', 2, lambda fd: EoN.discrete_SIR(G, test_transmission=lambda u, v: True, initial_infecteds=[0], initial_recovereds=[1], tmin=2, return_full_data=fd)),
         'Gillespie_SIR(weighted)': ('SIR', tm, lambda fd: EoN.Gillespie_SIR(G, 1.0, 1.0, rho=0.3, tmin=tm, transmission_weight='w', recovery_weight='r', return_full_data=fd)),
         'fast_SIS': ('SIS', tm, lambda fd: EoN.fast_SIS(G, 1.0, 1.0, initial_infecteds=[0, 2], tmin=tm, tmax=tm + 3, return_full_data=fd)),
@@ -123,12 +129,14 @@ def simulators():
     }
 
 
-def check_modes_agree(seeds=(1, 2, 3)):
+def check_modes_agree(seeds=(1, 2, 3), sis_seeds=(1, 2, 3, 4, 5, 6, 7, 8, 9, 10, 11, 12)):
     """plain arrays == summary of the full-data object (same seeds); histories well-formed; transmissions valid"""
-    G, sims = simulators()
+    G0, sims = simulators()
     n = 0
-    for name, (kind, tmin, f) in sims.items():
-        for seed in seeds:
+    for name, cfg in sims.items():
+        kind, tmin, f = cfg[:3]
+        G = cfg[3] if len(cfg) > 3 else G0
+        for seed in (sis_seeds if kind == 'SIS' else seeds):
             n += 1
             random.seed(seed); np.random.seed(seed)
             plain = f(False)
@@ -206,7 +214,7 @@ def check_simple_contagion_transmissions(seeds=(1, 2, 3)):
     n = 0
     graphs = []
     G = nx.Graph(); G.add_edges_from([(0, 1), (1, 2), (2, 0), (2, 3), (4, 5)]); graphs.append(('undirected', G))
-    D = nx.DiGraph(); D.add_edges_from([(0, 1), (1, 2), (2, 0), (3, 2), (1, 3), (4, 5), (5, 4)]); graphs.append(('directed', D))
+    D = nx.DiGraph(); D.add_edges_from([(0, 1), (1, 2), (2, 0), (3, 2), (1, 3), (4, 5), (5, 4), (1, 0), (2, 3)]); graphs.append(('directed (with reciprocal pairs)', D))
     for _, g in graphs:
         for u, v in g.edges():
             g[u][v]['ew'] = 1.0 + ((u + 2 * v) % 3) * 0.5
